@@ -450,10 +450,32 @@ impl Receiver {
         let pn = enc.packet_number;
         let pto = unsafe { s2n_quic_core::time::Timestamp::from_duration(std::time::Duration::from_secs(1)) };
         let decrypted = self.ks.decrypt_packet(enc, self.largest, pto);
-        match self.window.check(pn) {
-            Err(SlidingWindowError::Duplicate) => return (3, None),
-            Err(SlidingWindowError::TooOld) => return (4, None),
-            Ok(()) => {}
+        // a connection error of decrypt_packet closes the connection, from the duplicate branch as well
+        let conn_err = |e: &ProcessingError| -> Option<V> {
+            match e {
+                ProcessingError::ConnectionError(s2n_quic_core::connection::Error::Transport { code, .. })
+                    if code.as_u64() == transport::Error::AEAD_LIMIT_REACHED.code.as_u64() =>
+                {
+                    Some(6)
+                }
+                ProcessingError::ConnectionError(_) => Some(8),
+                _ => None,
+            }
+        };
+        let dup = match self.window.check(pn) {
+            Err(SlidingWindowError::Duplicate) => Some(3),
+            Err(SlidingWindowError::TooOld) => Some(4),
+            Ok(()) => None,
+        };
+        if let Some(code) = dup {
+            // if self.is_duplicate(..) { if let Err(err @ ConnectionError(_)) = decrypted { return Err(err) } return Err(Other) }
+            if let Err(e) = &decrypted {
+                if let Some(c) = conn_err(e) {
+                    self.closed = true;
+                    return (c, None);
+                }
+            }
+            return (code, None);
         }
         match decrypted {
             Ok((clear, _generation)) => {
@@ -465,14 +487,14 @@ impl Receiver {
                 (0, Some((pn.as_u64(), p)))
             }
             Err(ProcessingError::DecryptError) => (2, None),
-            Err(ProcessingError::ConnectionError(s2n_quic_core::connection::Error::Transport { code, .. }))
-                if code.as_u64() == transport::Error::AEAD_LIMIT_REACHED.code.as_u64() =>
-            {
-                // the connection closes; nothing is processed afterwards
-                self.closed = true;
-                (6, None)
-            }
-            Err(_) => (7, None),
+            Err(e) => match conn_err(&e) {
+                Some(c) => {
+                    // the connection closes; nothing is processed afterwards
+                    self.closed = true;
+                    (c, None)
+                }
+                None => (7, None),
+            },
         }
     }
 }
@@ -508,7 +530,7 @@ fn rxpipe(input: &[V]) -> Vec<V> {
             out.push(p.len() as V);
             out.extend(p.iter().map(|b| *b as V));
         }
-        (code, _) => out.push(if genuine || code == 5 || code == 6 { code } else { 1 }),
+        (code, _) => out.push(if genuine || code == 5 || code == 6 || code == 8 { code } else { 1 }),
     };
     while i < input.len() {
         match input[i] {
